@@ -898,6 +898,16 @@ def check_fill_pinned(chk) -> None:
 # L7 decoder, L8 from_dotbracket
 # ------------------------------------------------------------------------------------------------
 def check_decoder(chk) -> None:
+    """The decoder: fact level first (every balanced notation of <= 5 characters over two types, all 30 types), pinned form as the fallback."""
+    from checks import c01e
+
+    fi = chk.repo.func(MOD, "DotBracket.__post_init__")
+    if fact_first(chk, "decoder", fi.where, c01e.decoder_fact(chk)):
+        return
+    check_decoder_pinned(chk)
+
+
+def check_decoder_pinned(chk) -> None:
     repo = chk.repo
     fi = repo.func(MOD, "DotBracket.__post_init__")
     chk.note_function(fi)
@@ -1285,6 +1295,15 @@ def check_fcfs_pinned(chk) -> None:
 def check_text_forms(chk) -> None:
     """BPSEQ text <-> entries, sequence, multi-strand text (observe points from_string / __str__ / MultiStrandDotBracket.from_string)."""
     repo = chk.repo
+    from checks import c01e
+
+    pi = repo.func(MOD, "BpSeq.__post_init__")
+    chk.note_function(pi)
+    if not fact_first(chk, "bpseq-pairs", pi.where, c01e.post_init_fact(chk)):
+        t = norm(pi.node)
+        chk.expect("for i, _, j in self.entries:" in t and "if j != 0:" in t and "self.pairs[i] = j" in t and "self.pairs[j] = i" in t, "bpseq-pairs", pi.where, "pairs maps both ends of every paired entry", "BpSeq.pairs is not filled symmetrically from the paired entries", K(pi, "pairs"))
+    if fact_first(chk, "text-forms", repo.func(MOD, "BpSeq.from_string").where, c01e.text_forms_fact(chk)):
+        return
     fs = repo.func(MOD, "BpSeq.from_string")
     st = repo.func(MOD, "BpSeq.__str__")
     sq = repo.func(MOD, "BpSeq.sequence")
@@ -1299,13 +1318,6 @@ def check_text_forms(chk) -> None:
     chk.expect(ok, "bpseq-text", st.where, "str(bpseq) writes 'index letter pair' per entry, newline separated, in entry order", "BpSeq.__str__ does not write `index letter pair` for every entry in order", K(st, "format"), found=[norm(r.value) for r in rets])
     rets = [r for r in sq.node.body if isinstance(r, ast.Return)]
     chk.expect(len(rets) == 1 and norm(rets[0].value) in ("''.join((entry.sequence for entry in self.entries))", "''.join([entry.sequence for entry in self.entries])"), "bpseq-sequence", sq.where, "sequence = the entries' letters in order", "BpSeq.sequence is not the join of entry.sequence over self.entries", K(sq, "sequence"))
-    pi = repo.func(MOD, "BpSeq.__post_init__")
-    chk.note_function(pi)
-    t = norm(pi.node)
-    from checks import c01e
-
-    if not fact_first(chk, "bpseq-pairs", pi.where, c01e.post_init_fact(chk)):
-        chk.expect("for i, _, j in self.entries:" in t and "if j != 0:" in t and "self.pairs[i] = j" in t and "self.pairs[j] = i" in t, "bpseq-pairs", pi.where, "pairs maps both ends of every paired entry", "BpSeq.pairs is not filled symmetrically from the paired entries", K(pi, "pairs"))
     ds = repo.func(MOD, "DotBracket.from_string")
     chk.note_function(ds)
     t = norm(ds.node)
@@ -1327,7 +1339,11 @@ def run(chk) -> None:
         "triples describe their stem (def-use roles), the three conflict tests equal arc crossing on all 6 orderings of two arcs "
         "(exhaustive truth table), FCFS is first-fit over all earlier stems, the fill writes exactly start-1+t / partner-1-t for "
         "t in [0,n) with the bracket pair of the stem's level (affine loop summary), encoder table = decoder strings position by "
-        "position (constant folding), the decoder keeps one LIFO stack per type, from_dotbracket writes pairs symmetrically with +1."
+        "position (constant folding), the decoder keeps one LIFO stack per type, from_dotbracket writes pairs symmetrically with +1. "
+        "Each lemma is decided at fact level first (checks/c01e.py): the fragment is interpreted from the ast on one representative per class of a "
+        "finite input partition (order types of <= 4 arcs, levels 0..29, step classes of consecutive pairs, balanced notations of <= 5 characters, "
+        "small contiguous structures) and compared with the definition; it abstains when its classes do not reach every statement of the fragment. "
+        "Call histories: every ordered pair of encoder queries on one object answers as a fresh copy."
     )
     chk.trusted = ["CPython ast and re._parser", "paper argument composing L1-L8 (DESIGN.md §4 C01)"]
     chk.assumptions = ["valid BPSEQ: symmetric pairing, positions of different pairs distinct", "at most 30 bracket levels"]
@@ -1379,7 +1395,7 @@ ROBUST = {
     "decoder-lifo", "decoder-early-exit", "fcfs-scan-exit", "fcfs-available-reset", "fcfs-mark", "fcfs-choice", "greedy-choice",
     "components-walk", "greedy-perms", "greedy-earlier-exit", "greedy-mark", "product", "product-skip",
     # fact-level rules (checks/c01e.py): evaluated on every class of a finite input partition
-    "fcfs-first-fit", "fcfs-levels", "conflict-graph-fact", "enumeration-fact", "stems-run-fact", "stems-source", "from-db-fact", "bpseq-pairs-fact", "history-independent", "encoder-result-fact", "encoder-unsolved", "fill-result",
+    "fcfs-first-fit", "fcfs-levels", "conflict-graph-fact", "enumeration-fact", "stems-run-fact", "stems-source", "from-db-fact", "bpseq-pairs-fact", "history-independent", "encoder-result-fact", "encoder-unsolved", "fill-result", "decoder-fact", "bpseq-text", "bpseq-sequence", "dotbracket-length", "multistrand-text",
 }
 
 
@@ -1389,6 +1405,6 @@ MANIFEST_ENTRY = {
     "of the fill loop's index/trip-count summary and of from_dotbracket's stores, constant-folded agreement of encoder and decoder "
     "alphabets, LIFO-per-type shape of the decoder, first-fit shape of FCFS. Each lemma is a necessary condition; a change of any of "
     "these facts changes the produced or decoded notation for some structure.",
-    "note": "Trusted: CPython ast, the paper argument composing the lemmas. Not decided: the composition itself, BpSeq.from_string on malformed text, behaviour beyond 30 levels. The MILP encoder's level assignment is C02, the enumeration is C16.",
-    "technique": "static analysis: constant folding + def-use role resolution + order-type truth tables + affine loop summaries over the ast",
+    "note": "Trusted: CPython ast, the fragment interpreter's closed table of builtins/stdlib, the paper argument composing the lemmas. Evaluated classes are bounded (<= 4 stems, <= 6 contiguous residues); a part of a function that no class reaches makes the fact rule abstain (pinned form or ANALYSIS-ERROR). Not decided: the composition itself, behaviour beyond 30 levels. The MILP encoder's level assignment is C02, the enumeration is C16.",
+    "technique": "static analysis: constant folding + truth tables over finite input partitions (the encoder fragments are interpreted from the ast - sa/microeval.py, nothing of the library is imported or run - on every order type of <= 4 arcs, every level, every class of 5'->3' step, every balanced notation of <= 5 characters, with statement coverage of the fragment required); fallback: def-use role resolution + order-type truth tables + affine loop summaries over the pinned idioms",
 }
